@@ -26,37 +26,55 @@ SPEC = PropertySpec(
 
 @SPEC.rule(
     "R27.1",
-    "merge reads both sides: in Class._extend the branch for a class name present on both sides must merge or compare "
-    "the content fields of the incoming class (not only its nested classes)",
+    "merge reads both sides: for a class name present in both trees Class._extend either merges the content fields of "
+    "the incoming class, or tests with a predicate that reads every content field whether its own node is an empty "
+    "placeholder and, if so, keeps the incoming definition after merging the placeholder's nested classes into it",
 )
 def r27_1(ctx, rep):
     R = "R27.1"
     fn = ctx.func(AST, "Class._extend", R)
     other = fn.args.args[1].arg
     site = AST + ":Class._extend"
-    # names bound to the incoming class of the same name
-    incoming = {"%s.classes[class_name]" % other}
-    mentioned = set()
-    helper_calls = []
+    # discipline A: content of `other` is read in _extend itself
+    merged = set()
     for n in ast.walk(fn):
-        if isinstance(n, ast.Attribute) and n.attr in CONTENT + ["type", "partial", "encapsulated", "comment", "annotation"]:
+        if isinstance(n, ast.Attribute) and n.attr in CONTENT:
             base = norm(n.value)
             if base == other or base.startswith(other + ".classes["):
-                mentioned.add(n.attr)
-        if isinstance(n, ast.Call) and isinstance(n.func, ast.Attribute) and n.func.attr not in ("_extend", "keys", "items", "values", "update"):
-            helper_calls.append(n.func.attr)
-    # recursion applies _extend to the nested pair: what it reads from `other` itself is what matters
+                merged.add(n.attr)
+    # discipline B: placeholder predicate on the node we already have
+    pred_fields, adopt_ok = set(), False
+    for n in ast.walk(fn):
+        if isinstance(n, ast.If) and isinstance(n.test, ast.Call) and isinstance(n.test.func, ast.Attribute) \
+                and norm(n.test.func.value).startswith("self.classes[") and not n.test.args:
+            pred = ctx.find(AST, "Class." + n.test.func.attr)
+            if isinstance(pred, ast.FunctionDef):
+                ctx.functions_analysed.add("%s:Class.%s" % (AST, pred.name))
+                me = pred.args.args[0].arg
+                for x in ast.walk(pred):
+                    if isinstance(x, ast.Attribute) and is_name(x.value, me) and x.attr in CONTENT:
+                        pred_fields.add(x.attr)
+                t = [norm(st) for st in n.body]
+                key = norm(n.test.func.value)[len("self.classes["):-1]
+                ext = [i for i, x in enumerate(t) if x == "%s.classes[%s]._extend(self.classes[%s])" % (other, key, key)]
+                sto = [i for i, x in enumerate(t) if x == "self.classes[%s] = %s.classes[%s]" % (key, other, key)]
+                adopt_ok = bool(ext and sto and ext[0] < sto[0])
+    discipline = "merge" if merged else ("placeholder" if pred_fields else "none")
+    rep.extra["R27.1_discipline"] = discipline
     for f in CONTENT:
-        rep.ob(R, site, "field " + f, f in mentioned,
-               "when both trees define the same class, `%s` of the incoming definition is never looked at: if the first-merged "
-               "definition is a `within` placeholder (or a partial definition), the incoming class's %s are silently dropped" % (f, f))
-    rep.extra["R27.1_fields_read_from_other"] = sorted(mentioned)
-    # the both-sides branch recurses, the one-side branch adopts the node
-    ok = False
-    for n in walk_local(fn):
-        if isinstance(n, ast.If) and "in self.classes" in norm(n.test):
-            ok = any("._extend(" in norm(s) for s in n.body) and any(norm(s).startswith("self.classes[") for s in n.orelse)
-    rep.ob(R, site, "recursion / adoption", ok, "same name on both sides -> recurse; otherwise adopt the incoming class")
+        ok = f in merged or (f in pred_fields and adopt_ok)
+        rep.ob(R, site, "field " + f, ok,
+               "when both trees define the same class, `%s` of the incoming definition is never looked at and the existing node is "
+               "never checked for being an empty placeholder w.r.t. `%s`: merged after a `within` placeholder, the class's %s are "
+               "silently dropped" % (f, f, f))
+    if pred_fields:
+        rep.ob(R, site, "placeholder replaced by the incoming definition", adopt_ok,
+               "if the existing node is a placeholder the incoming node must first absorb the placeholder's nested classes "
+               "(other.classes[k]._extend(self.classes[k])) and then replace it")
+    # names only on one side are adopted, names on both sides recurse
+    t = norm(fn)
+    rep.ob(R, site, "recursion / adoption", "._extend(%s.classes[" % other in t and "self.classes[class_name] = %s.classes[class_name]" % other in t,
+           "same name on both sides -> recurse; otherwise adopt the incoming class")
 
 
 @SPEC.rule("R27.2", "placeholder packages for `within` are empty packages named by the within path, the file's classes go into the innermost one, and Tree.extend refreshes parent links")
@@ -102,18 +120,20 @@ def _m2(mod):
     return mod if replace_in_func(mod, "file_to_tree", edit) else None
 
 
-@SPEC.mutant("merge stops reading symbols (only meaningful once repaired)", AST, "R27.1", "symbols", needs_fixed=True)
+@SPEC.mutant("placeholder test ignores symbols", AST, "R27.1", "symbols", needs_fixed=True)
 def _m3(mod):
     def edit(fn):
-        hit = False
-        for node in ast.walk(fn):
-            for fld in ("body", "orelse"):
-                b = getattr(node, fld, None)
-                if isinstance(b, list):
-                    for i, st in enumerate(b):
-                        if isinstance(st, (ast.Expr, ast.Assign, ast.AugAssign)) and ".symbols" in norm(st):
-                            b[i] = ast.Pass()
-                            hit = True
-        return hit
+        for n in ast.walk(fn):
+            if isinstance(n, ast.BoolOp) and isinstance(n.op, ast.Or):
+                k = [v for v in n.values if not norm(v).endswith(".symbols")]
+                if len(k) < len(n.values):
+                    n.values = k
+                    return True
+        return False
 
-    return mod if replace_in_func(mod, "Class._extend", edit) else None
+    return mod if replace_in_func(mod, "Class._is_placeholder", edit) else None
+
+
+@SPEC.mutant("placeholder kept instead of the definition", AST, "R27.1", "", needs_fixed=True)
+def _m4(mod):
+    return mod if delete_stmt_where(mod, "Class._extend", lambda st: norm(st) == "self.classes[class_name] = other.classes[class_name]", which=1) else None
